@@ -259,6 +259,15 @@ pub fn c02(tier: &str) -> ! {
             run_sched(&mut rep, "crash-at-every-removal-manifest-write-rename/p1d3", &c02_meta_programs(), (1, 3), 4, false, 1, Duration::from_secs(20), own2);
         }
     }
+    {
+        use crate::props_sched::{c02_multiwriter_programs, run_sched};
+        let own2 = |c: &str| c == "C11.needed_file_removed" || c == "C02.concurrent_crash";
+        if t {
+            run_sched(&mut rep, "multi-writer-crash-at-every-write/p2d4", &c02_multiwriter_programs(), (2, 4), 16, false, 2, Duration::from_secs(1500), own2);
+        } else {
+            run_sched(&mut rep, "multi-writer-crash-at-every-write/p1d3", &c02_multiwriter_programs(), (1, 3), 4, false, 1, Duration::from_secs(15), own2);
+        }
+    }
     for a in CRASH_ASSUMPTIONS {
         rep.assume(a);
     }
